@@ -45,3 +45,19 @@ def category_z3(c):
            z3.If(c == 0xFE00, S(CANCEL),
            z3.If(fail, S(FAILURE),
            z3.If(warn, S(WARNING), S(UNKNOWN))))))
+
+
+def category_is_z3(c, cat):
+    """z3 Bool: the category of the Int term c is `cat` (same ranges as category())"""
+    fail = z3.Or(z3.And(c >= 0xA000, c <= 0xAFFF), z3.And(c >= 0xC000, c <= 0xCFFF), *[c == x for x in GENERAL_FAILURES])
+    warn = z3.Or(z3.And(c >= 0xB000, c <= 0xBFFF), *[c == x for x in GENERAL_WARNINGS])
+    succ, pend, canc = c == 0, z3.Or(c == 0xFF00, c == 0xFF01), c == 0xFE00
+    first = {SUCCESS: succ, PENDING: pend, CANCEL: canc}
+    if cat in first:
+        return first[cat]
+    none_first = z3.Not(z3.Or(succ, pend, canc))
+    if cat == FAILURE:
+        return z3.And(none_first, fail)
+    if cat == WARNING:
+        return z3.And(none_first, z3.Not(fail), warn)
+    return z3.And(none_first, z3.Not(fail), z3.Not(warn))
